@@ -49,10 +49,19 @@ Layout(sigs, edit) ==
 Links == <<Entry(<< >>, "s1", "k1", LinkD("s1", <<GoodSig("k1")>>, {}, ProdA)),
            Entry(<< >>, "s2", "k3", LinkD("s2", <<GoodSig("k3")>>, ProdA, ProdA))>>
 
-MCInit ==
-  /\ \E ck \in CKeySets, sg \in Signers, ed \in Edits, sh \in Shapes :
+\* "expiry" is content: a layout whose expiry sits at a calendar boundary (named offsets of the concretisation:
+\* 1 Jan 2100, 29 Dec 2098, 29 Feb 2096, 31 Dec 2099 23:59:59) edited by one second, one day or one calendar year
+CalendarExps == {2010000000, 2011000000, 2012000000, 2013000000}
+CalendarEdits == {"none", "expires", "expires_minus", "expires_year", "expires_year_back", "expires_day", "expires_day_back"}
+CalendarInit ==
+  \E e \in CalendarExps, ed \in CalendarEdits :
+     scn = Build([Layout(<<GoodSig("o1")>>, ed) EXCEPT !.expires = e], Own("o1"), Links, {})
+
+LatticeInit ==
+  \E ck \in CKeySets, sg \in Signers, ed \in Edits, sh \in Shapes :
        scn = Build(Layout(SigList(sg, sh), ed), ck, Links, {})
-  /\ VInitRest
+
+MCInit == (LatticeInit \/ CalendarInit) /\ VInitRest
 
 MCSpec == MCInit /\ [][VNext]_vars
 Emit == EmitAs("C01")
